@@ -215,6 +215,8 @@ type gmacro struct {
 
 // A ground "trigger term" found in the goal's cone: a select or an application of an uninterpreted function.
 type gterm struct {
+	round int             // instantiation round in which the term is offered as a candidate (frontier)
+	arr   string          // select: the array argument as written
 	fn    string          // "select" or the function symbol
 	roots map[string]bool // select: root arrays of the array argument
 	depth int             // select: nesting depth of the array argument
@@ -230,6 +232,9 @@ type ginstCtx struct {
 	skBySort map[string][]string
 	inGoal   bool
 	bareOnly bool
+	level    int
+	round    int // current instantiation round; terms found now are offered in the next one
+	stamp    int
 	parents  map[string][]string // declared array -> arrays its defining (copy / frame) axiom reads
 	gterms   []*gterm
 	gseen    map[string]bool
@@ -462,7 +467,7 @@ func (g *ginstCtx) collect(t *sx) {
 		key := t.String()
 		if !g.gseen[key] && len(g.gterms) < 4000 {
 			g.gseen[key] = true
-			gt := &gterm{fn: "select", roots: map[string]bool{}, args: []*sx{g.resolve(t.list[2])}}
+			gt := &gterm{round: g.stamp, fn: "select", arr: t.list[1].String(), roots: map[string]bool{}, args: []*sx{g.resolve(t.list[2])}}
 			gt.depth = g.arrayRoots(t.list[1], 0, gt.roots)
 			g.gterms = append(g.gterms, gt)
 		}
@@ -474,7 +479,7 @@ func (g *ginstCtx) collect(t *sx) {
 			for _, a := range t.list[1:] {
 				as = append(as, g.resolve(a))
 			}
-			g.gterms = append(g.gterms, &gterm{fn: t.head(), args: as})
+			g.gterms = append(g.gterms, &gterm{round: g.stamp, fn: t.head(), args: as})
 		}
 	}
 	for _, c := range t.list {
@@ -659,6 +664,7 @@ func upperBounds(body *sx, x string) []string {
 // triggers of a quantifier body for bound variable x: selects / function applications with an argument linear in x
 // and no other bound variable.
 type trig struct {
+	arr   string
 	fn    string
 	roots map[string]bool
 	depth int
@@ -683,7 +689,7 @@ func (g *ginstCtx) triggersOf(body *sx, x string, others map[string]bool) []trig
 		}
 		if t.head() == "select" && len(t.list) == 3 && t.list[2].mentions(x) && !mentionsOther(t.list[2]) && !t.list[1].mentions(x) && !mentionsOther(t.list[1]) {
 			if c, _, ok := linearIn(t.list[2], x); ok && c != 0 {
-				tr := trig{fn: "select", roots: map[string]bool{}, pat: t.list[2]}
+				tr := trig{fn: "select", arr: t.list[1].String(), roots: map[string]bool{}, pat: t.list[2]}
 				tr.depth = g.arrayRoots(t.list[1], 0, tr.roots)
 				out = append(out, tr)
 			}
@@ -706,22 +712,26 @@ func (g *ginstCtx) triggersOf(body *sx, x string, others map[string]bool) []trig
 
 func (g *ginstCtx) candidates(body *sx, x string, others map[string]bool) []string {
 	seen := map[string]bool{}
-	var exactC, looseC []string
+	var sameC, exactC, looseC []string
 	for _, tr := range g.triggersOf(body, x, others) {
 		for _, gt := range g.gterms {
-			if gt.fn != tr.fn {
+			if gt.fn != tr.fn || gt.round != g.round {
 				continue
 			}
 			var ground *sx
+			same := false
 			if tr.fn == "select" {
 				if gt.depth != tr.depth {
 					continue
 				}
-				hit := false
-				for r := range tr.roots {
-					if gt.roots[r] {
-						hit = true
-						break
+				same = gt.arr == tr.arr
+				hit := same
+				if !hit {
+					for r := range tr.roots {
+						if gt.roots[r] {
+							hit = true
+							break
+						}
 					}
 				}
 				if !hit {
@@ -741,7 +751,7 @@ func (g *ginstCtx) candidates(body *sx, x string, others map[string]bool) []stri
 			if !ok {
 				continue
 			}
-			if !exact && !g.bareOnly {
+			if !exact && !g.bareOnly && g.level >= 1 {
 				// base' + w against base + x with different bases (the same slice before and after a reallocation,
 				// or seen through a copy): the summands of the ground index are index guesses
 				if c, _, okl := linearIn(tr.pat, x); okl && c == 1 {
@@ -757,9 +767,12 @@ func (g *ginstCtx) candidates(body *sx, x string, others map[string]bool) []stri
 				continue
 			}
 			seen[v] = true
-			if exact {
+			switch {
+			case exact && same:
+				sameC = append(sameC, v)
+			case exact:
 				exactC = append(exactC, v)
-			} else {
+			default:
 				looseC = append(looseC, v)
 			}
 		}
@@ -772,12 +785,19 @@ func (g *ginstCtx) candidates(body *sx, x string, others map[string]bool) []stri
 			return l[i] < l[j]
 		})
 	}
+	byLen(sameC)
 	byLen(exactC)
 	byLen(looseC)
+	if len(sameC) > 12 {
+		sameC = sameC[:12]
+	}
+	if len(exactC) > 8 {
+		exactC = exactC[:8]
+	}
 	if len(looseC) > 6 {
 		looseC = looseC[:6]
 	}
-	return append(exactC, looseC...)
+	return append(append(sameC, exactC...), looseC...)
 }
 
 // ufDepth counts applications of uninterpreted functions in a candidate term (chains such as f(g(f(x))) are the
@@ -828,7 +848,35 @@ func (g *ginstCtx) instantiate(t *sx, depth int) {
 				// the goal's own universals (witness positions): also the last index of the range
 				cs = append(cs, upperBounds(body, b.list[0].atom)...)
 			}
-			lim := 10
+			// witnesses first: candidates built from named witnesses (and, for the goal, the end of the range) are the
+			// ones a proof by cases needs; plain program terms follow
+			var first, rest []string
+			for _, c := range cs {
+				if strings.Contains(c, "gi.sk!") {
+					first = append(first, c)
+				} else {
+					rest = append(rest, c)
+				}
+			}
+			if g.inGoal && len(binders) == 1 && b.list[1].String() == "Int" {
+				ub := upperBounds(body, b.list[0].atom)
+				var rest2 []string
+				for _, c := range rest {
+					isUB := false
+					for _, u := range ub {
+						if u == c {
+							isUB = true
+						}
+					}
+					if !isUB {
+						rest2 = append(rest2, c)
+					}
+				}
+				first = append(first, ub...)
+				rest = rest2
+			}
+			cs = append(first, rest...)
+			lim := 16
 			if len(binders) > 1 || depth > 0 {
 				lim = 4
 			}
@@ -889,11 +937,18 @@ func ginstScript(script string, groundOnly bool) string { return ginstScriptOpt(
 // ginstScriptOpt: with ufBridge the conversions bv2nat / int2bv are replaced by uninterpreted functions (per width),
 // constrained only by the bridge lemmas - another weakening, which keeps the solvers out of their slow conversion theory.
 func ginstScriptOpt(script string, groundOnly, ufBridge bool) string {
+	return ginstScriptLevel(script, groundOnly, ufBridge, 1)
+}
+
+// ginstScriptLevel: level 0 ("light") matches arrays by identity or direct definition only, makes no index guesses across
+// different bases and keeps the instance budget small - the result is tiny and decides most goals at once; level 1
+// ("heavy") follows copy/frame axioms between array versions and guesses indices.
+func ginstScriptLevel(script string, groundOnly, ufBridge bool, level int) string {
 	cmds, err := parseSxAll(script)
 	if err != nil || len(cmds) == 0 {
 		return ""
 	}
-	g := &ginstCtx{macros: map[string]*gmacro{}, defs: map[string]*sx{}, ufs: map[string]bool{}, gseen: map[string]bool{},
+	g := &ginstCtx{level: level, macros: map[string]*gmacro{}, defs: map[string]*sx{}, ufs: map[string]bool{}, gseen: map[string]bool{},
 		defSeen: map[string]bool{}, instSeen: map[string]bool{}, budget: 240, skBySort: map[string][]string{}}
 	goalIdx := -1
 	br := &bridgeCtx{sorts: map[string]*sx{}, seen: map[string]bool{}}
@@ -967,7 +1022,7 @@ func ginstScriptOpt(script string, groundOnly, ufBridge bool) string {
 			}
 		}
 		walk(stripPattern(q.list[2]))
-		if len(arrs) >= 2 {
+		if len(arrs) >= 2 && g.level >= 1 {
 			// the first array read at the bound address is the one being defined
 			g.parents[arrs[0]] = append(g.parents[arrs[0]], arrs[1:]...)
 		}
@@ -1003,13 +1058,29 @@ func ginstScriptOpt(script string, groundOnly, ufBridge bool) string {
 			order = append(order, i)
 		}
 	}
-	for round := 0; round < 5 && g.budget > 0; round++ {
+	for round := 0; round < 6; round++ {
 		before := len(g.insts)
+		g.round, g.stamp = round, round+1
+		g.budget = 110 // per round, so that later rounds (witnesses of instantiated existentials) always happen
+		if g.level == 0 {
+			g.budget = 40
+		}
 		for _, i := range order {
 			n0 := len(g.insts)
 			g.inGoal = i == goalIdx
+			saved := g.budget
+			if g.budget > 14 {
+				g.budget = 14 // per assertion and round
+			}
+			if g.level == 0 && g.budget > 6 {
+				g.budget = 6
+			}
 			g.instantiate(terms[i], 0)
+			g.budget = saved - (len(g.insts) - n0)
 			g.inGoal = false
+			if g.budget <= 0 {
+				break
+			}
 			if os.Getenv("GINST_DEBUG") != "" && len(g.insts) > n0 {
 				ts := terms[i].String()
 				if len(ts) > 160 {
